@@ -310,9 +310,9 @@ impl Scenario for C12 {
         }
         let n = p.records.len();
         let mut chunk = n / 2;
-        while chunk >= 1 {
+        while chunk >= 1 && out.len() * (n + 1) < 3_000_000 {
             let mut i = 0;
-            while i < n {
+            while i < n && out.len() * (n + 1) < 3_000_000 {
                 let mut q = p.clone();
                 q.records.drain(i..(i + chunk).min(n));
                 out.push(q);
